@@ -119,6 +119,15 @@ CLAIMED["C14"] = dict(
          "remainder of symbolic/symbolic is out of reach within the quick budget; thorough adds symbolic geometry in 1-d/2-d); "
          "offsets beyond 1000 edge lengths and cells below 1e-9 are outside the claim; HDF5 persistence of subregions is C10's harness",
 )
+CLAIMED["C15"] = dict(
+    text="Field.norm (getter and setter, through the constructor and afterwards) and Field.orientation run on cells that are "
+         "either free symbolic vectors or exactly zero (selector bit), with constant / per-cell / uninterpreted-function / "
+         "partly-zero target lengths >= 0: per cell |new|^2 = t^2, new parallel to and not opposite the old vector, zeros stay "
+         "zero; norm >= 0 with norm^2 = sum of squares and same mesh/unit/validity; orientation unit or zero around the 1e-8 "
+         "threshold and orientation*norm reproduces the field; updates and in-place writes after a norm was set are not "
+         "re-normalised and a later norm read/set follows the current values. NRA queries with the exact square-root encoding.",
+    ref="DESIGN.md section 2 / C15",
+)
 PENDING_REASON = "check not built yet in this round (planned: DESIGN.md section 2); not claimed until it runs green"
 NA = {}
 
